@@ -352,6 +352,7 @@ def binop (op : BinOp) (x y : Obj) : R Obj :=
   | .ctx _, _ | _, .ctx _ =>
     match op with
     | .eq | .ne => .error .outOfDomain     -- identity comparison of context objects
+    | .lt | .le | .gt | .ge => .error .outOfDomain   -- the null overloads of common.py take ANY object, a context too
     | _ => .error .noFunction
   | x, y =>
     if isLazy x || isLazy y then .error .outOfDomain
